@@ -177,11 +177,13 @@ pub struct ThreadCtx<T: Payload> {
     pub pat: u64,
     /// values handed back / received are dropped by the harness right after the op
     pub status: Option<&'static crate::stuck::Slot>,
+    /// never drop this thread's last handle of a side through DropS/DropR (handle-churn workloads)
+    pub keep_one: bool,
 }
 
 impl<T: Payload> ThreadCtx<T> {
     pub fn new(th: u16, tag_lo: Tag, tag_hi: Tag) -> Self {
-        ThreadCtx { th, idx: 0, stream: None, stream_owner: None, held_r: None, held_r_owner: None, held_s: None, held_s_owner: None, wakers: (0..3).map(|i| WakeCell::new(100 + i, None)).collect(), last_waker_r: 0, last_waker_s: 0, senders: vec![], receivers: vec![], log: Vec::new(), next_tag: tag_lo, tag_end: tag_hi, pat: th as u64, status: None }
+        ThreadCtx { th, idx: 0, stream: None, stream_owner: None, held_r: None, held_r_owner: None, held_s: None, held_s_owner: None, wakers: (0..3).map(|i| WakeCell::new(100 + i, None)).collect(), last_waker_r: 0, last_waker_s: 0, senders: vec![], receivers: vec![], log: Vec::new(), next_tag: tag_lo, tag_end: tag_hi, pat: th as u64, status: None, keep_one: false }
     }
     fn mk(&mut self) -> (T, Tag) {
         assert!(self.next_tag < self.tag_end, "thread {} ran out of tags", self.th);
@@ -213,6 +215,12 @@ impl<T: Payload> ThreadCtx<T> {
     /// (None if skipped for lack of a handle).
     pub fn exec(&mut self, op: Op) -> Option<usize> {
         if !self.has_for(op) {
+            return None;
+        }
+        if self.keep_one && ((op == Op::DropS && self.senders.len() <= 1) || (op == Op::DropR && self.receivers.len() <= 1)) {
+            return None;
+        }
+        if self.keep_one && ((matches!(op, Op::CloneS(_)) && self.senders.len() >= 6) || (matches!(op, Op::CloneR(_)) && self.receivers.len() >= 6)) {
             return None;
         }
         let idx = self.idx;
@@ -713,6 +721,7 @@ impl<T: Payload> ThreadCtx<T> {
     /// Epilogue: drop the stream and every handle this thread still owns, each
     /// as its own recorded event (so the handle ledger is complete).
     pub fn finish(&mut self) {
+        self.keep_one = false;
         if self.held_r.is_some() {
             self.rfut_drop();
         }
